@@ -117,6 +117,13 @@ def extract(src) -> dict:
             if not (isinstance(t.test, ast.Name) and t.test.id == "self"):
                 raise ExtractError("TestSuite.status: unexpected condition")
             derived = [_attr_member(t.body, "TestStatus"), _attr_member(t.orelse, "TestStatus")]
+    # the same decision written as statements:  if self: return A  (else:) return B
+    for i, n in enumerate(stf.body):
+        if derived is None and isinstance(n, ast.If) and isinstance(n.test, ast.Name) and n.test.id == "self" \
+                and len(n.body) == 1 and isinstance(n.body[0], ast.Return):
+            other = n.orelse if n.orelse else stf.body[i + 1:i + 2]
+            if len(other) == 1 and isinstance(other[0], ast.Return):
+                derived = [_attr_member(n.body[0].value, "TestStatus"), _attr_member(other[0].value, "TestStatus")]
     if derived is None:
         raise ExtractError("TestSuite.status: conditional return not found")
     facts["testsuite_derived"] = derived
@@ -124,7 +131,13 @@ def extract(src) -> dict:
     mr = _func(fc, "_merged_result")
     rules = []
     default_none = False
+    pair_names = set()      # `results = (r1, r2)` / `[r1, r2]` bound to a local name before the rules
     for stmt in mr.body:
+        if isinstance(stmt, ast.Assign) and len(stmt.targets) == 1 and isinstance(stmt.targets[0], ast.Name) \
+                and isinstance(stmt.value, (ast.List, ast.Tuple)) \
+                and [getattr(e, "id", None) for e in stmt.value.elts] == ["r1", "r2"]:
+            pair_names.add(stmt.targets[0].id)
+            continue
         if isinstance(stmt, ast.If):
             call = stmt.test
             if not (isinstance(call, ast.Call) and isinstance(call.func, ast.Name) and call.func.id == "any"
@@ -136,8 +149,9 @@ def extract(src) -> dict:
                     and isinstance(cmp_.left, ast.Name)):
                 raise ExtractError("_merged_result: unexpected comparison")
             it = g.generators[0].iter
-            if not (isinstance(it, ast.List) and [getattr(e, "id", None) for e in it.elts] == ["r1", "r2"]
-                    and not g.generators[0].ifs):
+            over_pair = (isinstance(it, (ast.List, ast.Tuple)) and [getattr(e, "id", None) for e in it.elts] == ["r1", "r2"]) \
+                or (isinstance(it, ast.Name) and it.id in pair_names)
+            if not (over_pair and not g.generators[0].ifs):
                 raise ExtractError("_merged_result: not over [r1, r2]")
             x = _attr_member(cmp_.comparators[0], "TestStatus")
             if not (len(stmt.body) == 1 and isinstance(stmt.body[0], ast.Return) and not stmt.orelse):
@@ -153,13 +167,17 @@ def extract(src) -> dict:
     facts["merged_default_none"] = default_none
     # --- _bool_to_exit_code: `return int(not value)`
     be = _func(cm, "_bool_to_exit_code")
-    r = be.body[-1]
-    ok = (isinstance(r, ast.Return) and isinstance(r.value, ast.Call) and getattr(r.value.func, "id", None) == "int"
-          and isinstance(r.value.args[0], ast.UnaryOp) and isinstance(r.value.args[0].op, ast.Not)
-          and isinstance(r.value.args[0].operand, ast.Name))
-    if not ok:
-        raise ExtractError("_bool_to_exit_code: not `int(not value)`")
-    facts["exit_code_is_not"] = True
+    # evaluated, not pattern-matched (same evaluator as tables/cli.py): `int(not value)`, `0 if value else 1`, `1 - int(value)` …
+    from .cli import _eval_bool_expr
+    rets = [s for s in be.body if isinstance(s, ast.Return)]
+    if len(rets) != 1 or len(be.args.args) != 1:
+        raise ExtractError("_bool_to_exit_code: unexpected shape")
+    arg = be.args.args[0].arg
+    try:
+        table = (int(_eval_bool_expr(rets[0].value, {arg: True})), int(_eval_bool_expr(rets[0].value, {arg: False})))
+    except ValueError as e:
+        raise ExtractError(f"_bool_to_exit_code: {e}") from None
+    facts["exit_code_is_not"] = (table == (0, 1))
     return facts
 
 
